@@ -21,8 +21,8 @@ import (
 
 	"github.com/mycoria/mycoria/config"
 	"github.com/mycoria/mycoria/frame"
-	"github.com/mycoria/mycoria/peering"
 	"github.com/mycoria/mycoria/m"
+	"github.com/mycoria/mycoria/peering"
 )
 
 var pool = kit.RoutablePool("c04", 3)
@@ -114,11 +114,11 @@ type outcome struct {
 	// second (honest) connection of a thenHonest case.
 	// receiverContinued: the router that received the faulted message later
 	// wrote another handshake message that is not an error notice.
-	receiverContinued string
-	streamIntact      bool // the receiver's byte stream was not changed by the fault after all
-	second                    bool
+	receiverContinued      string
+	streamIntact           bool // the receiver's byte stream was not changed by the fault after all
+	second                 bool
 	reg2A, reg2B, traffic2 bool
-	doneA, doneB   bool
+	doneA, doneB           bool
 }
 
 func mkNode(name string, id int, uni, sec string) *kit.Node {
@@ -594,6 +594,11 @@ func TestC04(t *testing.T) {
 		proofRelay(t, rep, &evals, &nontrivial)
 	}
 
+	{
+		e, n := overlappingSetups(t, rep, env)
+		evals += e
+		nontrivial += n
+	}
 	rep.Add(evals, nontrivial, int64(len(states)), transitions)
 	if err := rep.Finish(env); err != nil {
 		t.Fatal(err)
